@@ -29,10 +29,10 @@ ASSUMPTIONS = ["only the JSON parser backend is reachable", "fork start method (
 PLAN = {"quick": {"shards": 16, "cases": 720, "timeout": 900}, "thorough": {"shards": 16, "cases": 6000, "timeout": 3400}}
 FLOORS = {"quick": {"distinct_nontrivial": 150, "TraceSymbolTable.invariant": 3000, "add_symbols.post": 1500, "histories": 250, "loads": 80,
                     "rows_decoded": 10000, "delayed_pool_loads": 15, "incremental_histories": 25, "digest_sets": 6, "digest_runs": 36,
-                    "distinct_symbol_orderings": 12, "int8_boundary_loads": 10},
+                    "distinct_symbol_orderings": 12, "int8_boundary_loads": 10, "pool_loads_with_more_files_than_workers": 5},
           "thorough": {"distinct_nontrivial": 2000, "TraceSymbolTable.invariant": 40000, "add_symbols.post": 20000, "histories": 3500, "loads": 1000,
                        "rows_decoded": 150000, "delayed_pool_loads": 200, "incremental_histories": 300, "digest_sets": 40, "digest_runs": 400,
-                       "distinct_symbol_orderings": 40, "int8_boundary_loads": 100}}
+                       "distinct_symbol_orderings": 40, "int8_boundary_loads": 100, "pool_loads_with_more_files_than_workers": 40}}
 ALPHA = ["aten::mm", "", "ünï::côdé", "cudaLaunchKernel", " lead", "x" * 300, "a", "b", "Kernel", "ProfilerStep#1", "Undefined-1", "0"]
 
 
@@ -108,12 +108,18 @@ def gen_case(rnd, tier: str, i: Any) -> Dict[str, Any]:
         big_vocab = rnd.random() < 0.5
         fs = gen_struct.gen_fileset(rnd, tier)
         n_ranks = rnd.choice([2, 3, 3, 4, 5])
+        many = isinstance(i, int) and i % 53 == 5
+        if many:
+            n_ranks = (os.cpu_count() or 16) + 2        # more rank files than pool workers
         files = {}
         for r in range(n_ranks):
-            q = dict(fs["params"], n_ranks=n_ranks, base=fs["params"]["base"], n_events=rnd.choice([5, 30, 150 if big_vocab else 60]),
+            q = dict(fs["params"], n_ranks=n_ranks, base=fs["params"]["base"],
+                     n_events=(rnd.choice([4000, 4000, 5, 8, 12]) if (many and r in (0, n_ranks // 2)) else rnd.choice([5, 30, 150 if big_vocab else 60]) if not many else rnd.randint(4, 12)),
                      vocab=rnd.choice([100, 110]) if big_vocab else rnd.choice([1, 4, 12]), steps=0, ts_mode="int")
             files[f"rank{r}.json" + (".gz" if rnd.random() < 0.3 else "")] = gen_struct.gen_rank(rnd, r, q)
         mode = rnd.choice(["load", "load_mp", "load_mp_delayed", "single_shuffled", "single_then_multi", "multi_then_multi"])
+        if many:
+            mode = rnd.choice(["load_mp", "load_mp_delayed"])
         order = list(range(n_ranks))
         rnd.shuffle(order)
         return {"kind": "load", "files": files, "mode": mode, "order": order, "delays": [rnd.choice([0, 0.02, 0.08, 0.15]) for _ in range(n_ranks)],
@@ -307,6 +313,8 @@ def run_load(case, ctx, res) -> None:  # noqa: ANN001
         if len(st) >= 128 and any(len({e.name for e in m} | {e.cat for e in m}) < 128 for m in models.values()):
             res.counters["int8_boundary_loads"] += 1
         res.counters["loads"] += 1
+        if len(models) > (os.cpu_count() or 16) and mode != "load":
+            res.counters["pool_loads_with_more_files_than_workers"] += 1
         for r, m in models.items():
             if r not in t.traces:
                 res.bad("rank-loaded", f"rank {r} missing after {mode}")
